@@ -36,7 +36,7 @@ SPECS = {
     ),
     "C05": pcheck.PSpec(
         "C05",
-        clauses=["RowsMatch", "SpuriousFault", "FaultMissed", "Compiles", "BookingFault"],
+        clauses=["StateCarried", "Compiles", "BookingFault"],
         profiles={"quick": [("MCQueryGen_core_s.cfg", None)],
                   "thorough": [("MCQueryGen_core.cfg", None)]},
         events={"quick": 8, "thorough": 16},
